@@ -67,7 +67,7 @@ class Config:
         if self.u_otype:
             o += f"({self.u_otype})"
         return (
-            f"{self.link_cls}{'[N=1]' if self.n1 else '[N>=2]'} "
+            f"{self.link_cls}{'[N=1]' if self.n1 else ('[N=4,vsl=1,3]' if self.link_cls == 'LinkWithVsl' else '[N>=2]')} "
             f"U(in={self.u_in},origin={o},out={self.u_out}) "
             f"D(in={self.d_in},dest={self.d_dest or '-'},out={self.d_out})"
             f"{' delta' if self.delta else ''}{' phi' if self.phi else ''}"
@@ -215,6 +215,7 @@ class World:
         self.containers_keepalive: list = []
         self.prims: list = []
         self._build()
+        self.build_engines()
 
     # --------------------------------------------------------------- build
     def _param(self, role, name):
@@ -235,8 +236,16 @@ class World:
         for g in ("states", "next_states", "actions", "disturbances"):
             o.attrs[g] = None
         if cls_fq == LINKVSL:
-            o.attrs["vsl"] = IndexSet("vsl", role)
+            # links with speed limits are analysed with a concrete segment count and a
+            # concrete, non-leading set of limited segments (so loops over `vsl`, ordinal
+            # vs. position confusions etc. are visible): N = 4 -> segments 1 and 3
+            if not isinstance(o.attrs["N"], int):
+                o.attrs["N"] = 4
+            nn = o.attrs["N"]
+            o.attrs["vsl"] = sorted({min(1, nn - 1), nn - 1})
             o.attrs["alpha"] = self._param(role, "alpha")
+            self.env.n1[role] = nn
+            self.env.n1[role + ".vsl"] = len(o.attrs["vsl"])
         return o
 
     def _build(self):
@@ -319,7 +328,7 @@ class World:
             for o in self.links:
                 d = {"rho": self._state("rho", o, caller=True), "v": self._state("v", o, caller=True)}
                 if o.cls == LINKVSL:
-                    d["v_ctrl"] = TV(("w", "v_ctrl", o.ident, "vsl"), 1, False, "caller array v_ctrl")
+                    d["v_ctrl"] = TV(E.V("v_ctrl", o.ident + ".vsl"), 1, False, "caller array v_ctrl")
                 self.init_conditions[o] = d
             if self.ORG is not None and cfg.u_origin != "Origin":
                 d = {k: self._scalar_var(k, self.ORG, caller=True) for k in ("w", "d", "r", "v_ctrl", "q")}
@@ -363,6 +372,8 @@ class World:
             "flow_eq_type", "alpha", "vsl", "name",
         ):
             it.event("param-store", node, f"element parameter `{attr}` of {o.ident} is overwritten during stepping")
+        if o.kind == "engine" and not getattr(self, "_constructing", False):
+            it.event("extra-attr-store", node, f"attribute `{attr}` stored on the engine during stepping")
         if o.kind in ("link", "origin", "dest", "node", "net") and attr not in (
             "states", "next_states", "actions", "disturbances",
             "lam", "L", "rho_max", "rho_crit", "v_free", "a", "turnrate", "C", "N",
@@ -538,6 +549,9 @@ class World:
         return False
 
     def call_ext(self, it, name, args, kwargs, node):
+        if name in ("numpy.empty", "numpy.zeros", "numpy.ones", "numpy.full", "numpy.random.rand",
+                    "numpy.random.randn", "numpy.random.random", "casadi.SX.sym", "casadi.MX.sym"):
+            return self.fresh_array(it, name, node)
         return NotImplemented
 
     def intercept_call(self, it: Interp, f: FuncV, args, kwargs, node):
@@ -560,7 +574,82 @@ class World:
                 self.prims.append((f"{fi.cls.split(':')[1]}.{fi.name}", f.via, _where(it, node), env))
         return NotImplemented
 
+    # ------------------------------------------------------------- engines
+    def build_engines(self):
+        """EXPL / CUR are constructed by interpreting the engine's __init__; a third
+        engine of the *other* flavour is constructed afterwards, as a program that holds
+        several engines would do."""
+        self.class_overlay = {}
+        it = Interp(self.prog, self, lib_semantics=self.impl)
+        self._constructing = True
+        try:
+            for o, arg in ((self.EXPL, None), (self.CUR, None), (Obj(ENGINE_CLS[self.impl], "OTHER-ENGINE", kind="engine"), "other")):
+                init = self.prog.lookup_method(o.cls, "__init__")
+                if init is None:
+                    continue
+                if self.impl == "casadi":
+                    st = getattr(self, "sym_type", "SX")
+                    if arg == "other":
+                        st = "MX" if st == "SX" else "SX"
+                    o.attrs["__nominal__"] = st
+                    it.call_function(FuncV(init, o, defcls=init.cls), [st], {})
+                else:
+                    it.call_function(FuncV(init, o, defcls=init.cls), [], {})
+        except Raised as e:
+            raise AnalysisError(f"engine construction raises {e.exc}: {e.msg}")
+        finally:
+            self._constructing = False
+
     def _var(self, it, f, args, kwargs, node):
+        tv = self._var_symbol(it, f, args, kwargs, node)
+        eng = f.self_obj
+        if getattr(self, "class_overlay", None) is None or not isinstance(eng, Obj):
+            return tv
+        # interpret the real body to learn what the engine does with the fresh array
+        self._pending_var = (tv, eng)
+        try:
+            out = it.call_function(FuncV(f.fi, eng, via=eng, defcls=f.fi.cls), list(args), dict(kwargs), node,
+                                   ) if False else self._run_var_body(it, f, args, kwargs, node)
+        finally:
+            self._pending_var = None
+        if not isinstance(out, TV) or out.t != tv.t:
+            raise it.err(node, "engine.var does not return the array/symbol it creates")
+        return TV(tv.t, out.rank, tv.fresh, tv.origin)
+
+    def _run_var_body(self, it, f, args, kwargs, node):
+        fi = f.fi
+        it.depth += 1
+        try:
+            env = it.bind_args(f, args, kwargs, node)
+            from .interp import Frame, Return
+            fr = Frame(fi, env, defcls=fi.cls, self_obj=f.self_obj)
+            it.stack.append(fr)
+            try:
+                it.exec_block(fi.node.body, fr)
+            except Return as r:
+                return r.v
+            finally:
+                it.stack.pop()
+            return None
+        finally:
+            it.depth -= 1
+
+    def fresh_array(self, it, name, node):
+        """hook for the library calls that create the array/symbol inside engine.var"""
+        pend = getattr(self, "_pending_var", None)
+        if pend is None:
+            raise it.err(node, f"{name} outside engine.var is not modelled")
+        tv, eng = pend
+        if name.startswith("casadi."):
+            kind = name.split(".")[1]
+            nominal = eng.attrs.get("__nominal__")
+            if nominal is not None and kind != nominal:
+                it.event("engine-state-shared", node,
+                         f"an engine constructed for {nominal} symbols creates {kind} symbols: its configuration "
+                         "is shared with another engine instance")
+        return TV(tv.t, 1, tv.fresh, tv.origin)
+
+    def _var_symbol(self, it, f, args, kwargs, node):
         name = args[0] if args else kwargs.get("name")
         n = args[1] if len(args) > 1 else kwargs.get("n", 1)
         if not isinstance(name, str) or "_" not in name:
@@ -577,6 +666,11 @@ class World:
             return TV(E.V(var, role), 1, False, f"state {var} of {role}")
         if isinstance(n, AbsInt) and n.what.startswith("len("):
             return TV(("w", var, role, "vsl"), 1, False, f"variable {var} of {role}")
+        if o.kind == "link" and var == "v_ctrl" and isinstance(n, int) and not isinstance(n, bool):
+            if self.env.nseg(role + ".vsl") != n:
+                it.event("var-length", node, f"{name} created with length {n}, the link has "
+                                             f"{self.env.nseg(role + '.vsl')} limited segments")
+            return TV(E.V(var, role + ".vsl"), 1, False, f"variable {var} of {role}")
         if isinstance(n, int) and not isinstance(n, bool) and o.kind == "link" and o.attrs.get("N") == n \
                 and var in ("rho", "v"):
             return TV(E.V(var, role), 1, False, f"state {var} of {role}")
